@@ -180,6 +180,12 @@ func sinkFields(p *Program, v ssa.Value) (fields map[string]bool, unknown []stri
 
 // reachableFuncs: functions reachable in the call graph from f (including f).
 func reachableFuncs(p *Program, f *ssa.Function) map[*ssa.Function]bool {
+	return reachableFuncsOpt(p, f, true)
+}
+
+// reachableFuncsOpt: withClosures also counts function literals created (not necessarily called)
+// by a reachable function.
+func reachableFuncsOpt(p *Program, f *ssa.Function, withClosures bool) map[*ssa.Function]bool {
 	seen := map[*ssa.Function]bool{}
 	var work []*ssa.Function
 	work = append(work, f)
@@ -200,7 +206,7 @@ func reachableFuncs(p *Program, f *ssa.Function) map[*ssa.Function]bool {
 		}
 		for _, a := range g.AnonFuncs {
 			// closures created here may be called later; count them as reachable
-			if !seen[a] {
+			if withClosures && !seen[a] {
 				seen[a] = true
 				work = append(work, a)
 			}
